@@ -29,6 +29,7 @@ MaxTokens == atoi(IOEnv.MAX_TOKENS)
 Target    == atoi(IOEnv.TARGET_TOKENS)
 MaxMut    == atoi(IOEnv.MAX_MUTANTS)
 Bias      == atoi(IOEnv.BIAS)
+FastMutate == IOEnv.FAST_MUTATE = "1"
 
 NT   == NonterminalsOf(G)
 Term == TerminalsOf(G)
@@ -53,8 +54,8 @@ MinLenFix(ml) ==
 MinLen  == MinLenFix([X \in NT |-> Inf])
 Yield   == [i \in DOMAIN G.prods |-> SumLen(MinLen, Rhs(G.prods[i]), 1)]   \* least yield of each production
 
-VARIABLES done, todo, need, phase, nmut, prev, target, lastop
-vars == <<done, todo, need, phase, nmut, prev, target, lastop>>
+VARIABLES done, todo, need, phase, nmut, prev, target, lastop, used, cap
+vars == <<done, todo, need, phase, nmut, prev, target, lastop, used, cap>>
 
 \* move leading terminals of a sentential form to the produced prefix
 RECURSIVE LeadTerms(_)
@@ -68,6 +69,8 @@ Init == /\ done = <<>>
         /\ prev = <<>>
         /\ lastop = ""
         /\ target \in {0, Target \div 3, Target}      \* how long this derivation is pushed to grow
+        /\ used = [p \in DOMAIN G.prods |-> 0]        \* how often each production was applied
+        /\ cap \in 1..3                               \* ... and how often it may be (see Expand)
 
 Expand ==
     /\ phase = "derive"
@@ -82,17 +85,22 @@ Expand ==
              IN  /\ Yield[p] < Inf
                  /\ Len(done) + need2 <= MaxTokens
                  /\ (coin > 1 /\ short /\ alt) => Yield[p] > MinLen[X]
+                 \* a production is applied at most cap times, except that a shortest alternative
+                 \* stays available (so every derivation can finish): early lists cannot eat the
+                 \* whole budget and later parts of the sentence get their share
+                 /\ used[p] < cap \/ Yield[p] = MinLen[X]
+                 /\ used' = [used EXCEPT ![p] = @ + 1]
                  /\ done' = done \o SubSeq(form, 1, k)
                  /\ todo' = SubSeq(form, k + 1, Len(form))
                  /\ need' = need2 - k
-    /\ UNCHANGED <<phase, nmut, prev, target, lastop>>
+    /\ UNCHANGED <<phase, nmut, prev, target, lastop, cap>>
 
 Finish ==
     /\ phase = "derive"
     /\ todo = <<>>
     /\ PrintT(ToJson([kind |-> "sentence", op |-> "", w |-> done]))
     /\ phase' = "sentence"
-    /\ UNCHANGED <<done, todo, need, nmut, prev, target, lastop>>
+    /\ UNCHANGED <<done, todo, need, nmut, prev, target, lastop, used, cap>>
 
 Delete(s, k)     == SubSeq(s, 1, k - 1) \o SubSeq(s, k + 1, Len(s))
 Insert(s, k, x)  == SubSeq(s, 1, k) \o <<x>> \o SubSeq(s, k + 1, Len(s))        \* after position k
@@ -105,25 +113,38 @@ Mutants(s) ==
     \cup UNION {{[op |-> "replace", w |-> Replace(s, k, x)] : x \in Term \ {s[k]}} : k \in 1..Len(s)}
     \cup {[op |-> "swap", w |-> Swap(s, k)] : k \in {j \in 1..(Len(s) - 1) : s[j] # s[j + 1]}}
 
+\* One mutation.  In generator mode (FastMutate, -simulate) the instance is drawn with TLC's
+\* RandomElement so that TLC does not have to build all ~|w| x |terminals| successors just to keep
+\* one; in model-checking mode every mutant is a successor.
 \* (Printing happens in EmitMutant, from the state actually reached: TLC evaluates an action for
 \* every candidate successor, so a print inside Mutate would list all mutants, not the chosen one.)
+PickMutant(op) ==
+    LET n == Len(done)
+    IN  CASE op = "delete"  -> IF n = 0 THEN {} ELSE {[op |-> op, w |-> Delete(done, RandomElement(1..n))]}
+          [] op = "insert"  -> {[op |-> op, w |-> Insert(done, RandomElement(0..n), RandomElement(Term))]}
+          [] op = "replace" -> IF n = 0 THEN {}
+                               ELSE LET k == RandomElement(1..n) IN
+                                    {[op |-> op, w |-> Replace(done, k, RandomElement(Term \ {done[k]}))]}
+          [] OTHER          -> LET ks == {j \in 1..(n - 1) : done[j] # done[j + 1]}
+                               IN  IF ks = {} THEN {} ELSE {[op |-> op, w |-> Swap(done, RandomElement(ks))]}
+
 Mutate ==
     /\ phase \in {"sentence", "mutant"}
     /\ nmut < MaxMut
     /\ \E op \in {"delete", "insert", "replace", "swap"} :       \* one operation kind, then one instance
-         \E m \in {m \in Mutants(done) : m.op = op} :
+         \E m \in (IF FastMutate THEN PickMutant(op) ELSE {m \in Mutants(done) : m.op = op}) :
             /\ done' = m.w
             /\ lastop' = m.op
     /\ prev' = done
     /\ phase' = "pending"
     /\ nmut' = nmut + 1
-    /\ UNCHANGED <<todo, need, target>>
+    /\ UNCHANGED <<todo, need, target, used, cap>>
 
 EmitMutant ==
     /\ phase = "pending"
     /\ PrintT(ToJson([kind |-> "mutant", op |-> lastop, w |-> done]))
     /\ phase' = "mutant"
-    /\ UNCHANGED <<done, todo, need, nmut, prev, target, lastop>>
+    /\ UNCHANGED <<done, todo, need, nmut, prev, target, lastop, used, cap>>
 
 Next == Expand \/ Finish \/ Mutate \/ EmitMutant
 
